@@ -158,6 +158,13 @@ type BatchCase struct {
 	// verbose for: a handler derived with that host attribute is enabled at
 	// every level, whatever BaseMin says.
 	Verbose []int `json:"verbose,omitempty"`
+	// Early (with Nest 3 only): between the two log middlewares sits a
+	// middleware that sends 103 Early Hints before it calls the next handler.
+	// The inner middleware's invocation begins after that; its "finished"
+	// record reports what was set from then on.  (The outer record is only
+	// judged when the handler sets an explicit final status, see the
+	// generator's note on informational responses.)
+	Early bool `json:"early,omitempty"`
 }
 
 func (c BatchCase) verboseHosts() map[string]bool {
@@ -188,6 +195,9 @@ type recHandler struct {
 	// every level through (per-host verbosity: Enabled of a derived handler
 	// may differ from its parent's).
 	verbose map[string]bool
+	// tag, when set, is added to every record as attribute "mw" (tells the
+	// records of two nested middlewares apart).
+	tag string
 }
 
 // derivedMin is the minimum level of a handler derived with the attributes as.
@@ -203,6 +213,9 @@ func (h *recHandler) derivedMin(as []slog.Attr) slog.Level {
 func (h *recHandler) Enabled(_ context.Context, l slog.Level) bool { return l >= h.min }
 func (h *recHandler) Handle(_ context.Context, r slog.Record) error {
 	lr := logRec{msg: r.Message, attrs: map[string]string{}}
+	if h.tag != "" {
+		lr.attrs["mw"] = h.tag
+	}
 	for _, a := range h.attrs {
 		lr.attrs[a.Key] = a.Value.String()
 	}
@@ -221,15 +234,15 @@ func (h *recHandler) WithAttrs(as []slog.Attr) slog.Handler {
 	case 1: // copy, then wipe the slice it was given
 		own := slices.Clone(as)
 		clear(as)
-		return &recHandler{mu: h.mu, recs: h.recs, attrs: own, min: h.derivedMin(own), mode: h.mode, verbose: h.verbose}
+		return &recHandler{mu: h.mu, recs: h.recs, attrs: own, min: h.derivedMin(own), mode: h.mode, verbose: h.verbose, tag: h.tag}
 	case 2: // copy, then rewrite the keys of the slice it was given
 		own := slices.Clone(as)
 		for i := range as {
 			as[i].Key = "scribbled." + as[i].Key
 		}
-		return &recHandler{mu: h.mu, recs: h.recs, attrs: own, min: h.derivedMin(own), mode: h.mode, verbose: h.verbose}
+		return &recHandler{mu: h.mu, recs: h.recs, attrs: own, min: h.derivedMin(own), mode: h.mode, verbose: h.verbose, tag: h.tag}
 	}
-	return &recHandler{mu: h.mu, recs: h.recs, attrs: as, min: h.derivedMin(as), mode: h.mode, verbose: h.verbose}
+	return &recHandler{mu: h.mu, recs: h.recs, attrs: as, min: h.derivedMin(as), mode: h.mode, verbose: h.verbose, tag: h.tag}
 }
 func (h *recHandler) WithGroup(string) slog.Handler { return h }
 
@@ -373,7 +386,14 @@ func checkBatch(c BatchCase) error {
 			return mw.Wrap(mw.Wrap(inner))
 		case 3:
 			levels = 2
-			mw2 := httputil.NewLogMiddleware(slog.New(&recHandler{mu: &mu, recs: &recs, min: slog.Level(c.BaseMin), mode: c.HandlerMode, verbose: c.verboseHosts()}), slog.Level(c.Level))
+			mw2 := httputil.NewLogMiddleware(slog.New(&recHandler{mu: &mu, recs: &recs, min: slog.Level(c.BaseMin), mode: c.HandlerMode, verbose: c.verboseHosts(), tag: "inner"}), slog.Level(c.Level))
+			if c.Early {
+				in := mw2.Wrap(inner)
+				return mw.Wrap(http.HandlerFunc(func(w http.ResponseWriter, r *http.Request) {
+					w.WriteHeader(http.StatusEarlyHints)
+					in.ServeHTTP(w, r)
+				}))
+			}
 			return mw.Wrap(mw2.Wrap(inner))
 		}
 		return mw.Wrap(inner)
@@ -573,8 +593,12 @@ func checkBatch(c BatchCase) error {
 		if rr.status() != wantCode || rr.Body.String() != wantBody {
 			return fmt.Errorf("client of request %s received status %d body %q, the invocation wrote status %d body %q", id, rr.status(), rr.Body.String(), wantCode, wantBody)
 		}
-		if !slices.Equal(rr.info, spec.Pre1xx) {
-			return fmt.Errorf("client of request %s received informational responses %v, the invocation sent %v", id, rr.info, spec.Pre1xx)
+		wantInfo := spec.Pre1xx
+		if c.Early && c.Nest == 3 {
+			wantInfo = append([]int{http.StatusEarlyHints}, spec.Pre1xx...)
+		}
+		if !slices.Equal(rr.info, wantInfo) {
+			return fmt.Errorf("client of request %s received informational responses %v, the invocation sent %v", id, rr.info, wantInfo)
 		}
 		wantHdr := spec.Header && !spec.EmptyFirst // a header set after the response was committed is not sent
 		sent := rr.sent
@@ -612,8 +636,9 @@ func checkBatch(c BatchCase) error {
 			if wantCode == 0 || c.Reqs[i].Hijack > 0 {
 				wantCode = 200
 			}
-			if lr.attrs["code"] != strconv.Itoa(wantCode) {
-				return fmt.Errorf("the finished record of request %s reports code=%s, the invocation set %d", id, lr.attrs["code"], wantCode)
+			outerAfterEarlyHints := c.Early && c.Nest == 3 && lr.attrs["mw"] != "inner" && (c.Reqs[i].Code == 0 || c.Reqs[i].Hijack > 0) // (no explicit final status: the implicit-200 case after a 1xx)
+			if lr.attrs["code"] != strconv.Itoa(wantCode) && !outerAfterEarlyHints {
+				return fmt.Errorf("the finished record of request %s (middleware %q) reports code=%s, the invocation set %d", id, lr.attrs["mw"], lr.attrs["code"], wantCode)
 			}
 			if _, ok := lr.attrs["elapsed"]; !ok {
 				return fmt.Errorf("the finished record of request %s has no elapsed attribute", id)
@@ -635,6 +660,9 @@ func checkBatch(c BatchCase) error {
 		if p.started != wantMW || p.finished != wantMW || p.inside != c.Reqs[i].Logs {
 			return fmt.Errorf("request %s: %d started, %d finished, %d inside records; want %d, %d, %d (middleware level %d, base logger minimum %d)", reqID(i), p.started, p.finished, p.inside, wantMW, wantMW, c.Reqs[i].Logs, c.Level, c.BaseMin)
 		}
+	}
+	if c.Early && c.Nest == 3 {
+		vp.Class("batch:early-hints-middleware-between-two-log-middlewares")
 	}
 	if len(c.Verbose) > 0 && !mwEnabled {
 		vp.Class("batch:only-the-derived-handler-of-some-hosts-is-enabled")
@@ -681,6 +709,7 @@ var batchProp = vp.Register(vp.Prop[BatchCase]{
 		c := BatchCase{Level: rapid.SampledFrom([]int{-4, 0, 4}).Draw(t, "level"), BaseMin: rapid.SampledFrom([]int{-8, -8, -4, 0, 4, 8}).Draw(t, "basemin")}
 		c.Nest = rapid.SampledFrom([]int{0, 0, 0, 2, 2, 3}).Draw(t, "nest")
 		c.HandlerMode = rapid.SampledFrom([]int{0, 0, 1, 2}).Draw(t, "handlermode")
+		c.Early = c.Nest == 3 && rapid.Bool().Draw(t, "early")
 		if rapid.IntRange(0, 2).Draw(t, "verbose") == 0 {
 			c.Verbose = rapid.SliceOfN(rapid.IntRange(0, n-1), 1, 3).Draw(t, "verbosereqs")
 		}
